@@ -254,3 +254,8 @@ mod tests {
         Ok(())
     }
 }
+
+#[cfg(geodesy_verif)]
+pub(crate) fn verif_ellipsoid_names() -> Vec<&'static str> {
+    constants::ELLIPSOID_LIST.iter().map(|e| e.0).collect()
+}
